@@ -31,7 +31,12 @@ StepCall(e) ==
     /\ LET o    == obs'
            x    == exp'[Len(exp')]
            key  == <<objkind, o>>
-           want == IF key \in DOMAIN ref THEN ref[key] ELSE NoDig
+           \* recovery and interpolator calls leave the stored simulation untouched (RF / Interp: UNCHANGED sim), so the
+           \* stored time and field must be those a fresh object shows right after the simulation itself
+           skey == <<objkind, [kind |-> "sim", of |-> o.of]>>
+           own  == IF key \in DOMAIN ref THEN ref[key] ELSE NoDig
+           base == IF o.kind \in {"rf", "interp"} /\ skey \in DOMAIN ref THEN ref[skey] ELSE own
+           want == <<base[1], base[2], own[3]>>
            bad  == IF o.kind = "unspecified" THEN {}
                    ELSE IF o.kind \in {"RuntimeError", "ValueError"}
                         THEN (IF e.outcome = o.kind THEN {} ELSE {"Outcome"})
